@@ -19,10 +19,12 @@ EXHAUSTIVE = {'quick': False, 'thorough': False}
 IMPL_TIMEOUT = 1500
 RULE = ('programs: 1..3 threads, each running one hub.doInTransaction(body) on a FILE-backed sqlite database (timeout 0); body = 0..5 steps '
         'create / update a column of row id / delete row id (ids inside and outside the table) and optionally a raise; for every seeded body '
-        'also the variants raising after every prefix (including none and all); thread-level binding (every thread its own thread connection, '
-        'real threading.Thread objects released one body step at a time by the controller, random interleavings) and process-level binding '
-        '(one caller, other threads only asked what the hub resolves to).  After every scheduling step: committed table via an independent '
-        'DB-API connection, hub.getConnection() in every thread, phase/result/transaction state of every thread.  '
+        'also the variants raising after every prefix (including none and all); hub configurations: thread-level binding (every thread its own '
+        'thread connection, real threading.Thread objects released one body step at a time by the controller, random interleavings), '
+        'process-level binding (one caller, other threads only asked what the hub holds), BOTH (thread connections and a different process '
+        'connection) and mixed (some threads without a connection of their own fall back to the process one; at most one of them calls).  After every scheduling step: committed table via an independent '
+        'DB-API connection, in every thread its raw thread-local slot, the raw process slot and hub.getConnection() (identity of the objects), '
+        'phase/result/transaction state of every thread.  '
         'Non-trivial = a body with at least one write that ran to its raise or to its commit; distinct = distinct (binding, table, bodies, schedule).')
 EXPLANATION = ('Theorems C08_* (Coq, all bodies / all raise points / all schedules) over Model/Hub.v, a hand model of ConnectionHub.getConnection/'
                'doInTransaction with sqlite locking between the threads\' transactions; correspondence: the model evaluated by vm_compute against '
@@ -74,6 +76,25 @@ def setup_class():
     return _state['cls'], _state['hub']
 
 
+# ------------------------------------------------------------------ hub configurations
+def hubcfg(case):
+    """(slots, proc, nconn): per thread the index of the DBConnection bound as its threadConnection (or None), the index of the
+    one bound as processConnection (or None), how many DBConnection objects there are.  Labels: 'thread' = every thread its own,
+    no process connection; 'process' = only a process connection; 'both' = every thread its own AND a different process
+    connection; 'mixed' = explicit 'slots'/'proc' (some threads without a connection of their own fall back to the process one)"""
+    n = len(case['bodies'])
+    if 'slots' in case:
+        slots, proc = list(case['slots']), case.get('proc')
+    elif case['mode'] == 'thread':
+        slots, proc = list(range(n)), None
+    elif case['mode'] == 'process':
+        slots, proc = [None] * n, 0
+    else:                       # 'both'
+        slots, proc = list(range(n)), n
+    used = [x for x in slots if x is not None] + ([proc] if proc is not None else [])
+    return slots, proc, (max(used) + 1 if used else 0)
+
+
 # ------------------------------------------------------------------ generation
 VALS = [None, 0, 1, 2, 3, 4, 5]
 
@@ -103,13 +124,17 @@ def prefix_variants(rows, body):
     """the same body raising after every prefix (single caller)"""
     out = []
     plain = [s for s in body if s[0] != 'fail']
-    for mode in ('thread', 'process'):
+    for mode in ('thread', 'process', 'both'):
         for k in range(len(plain) + 1):
             b = plain[:k] + [['fail', k % 4]] + plain[k:]
             out.append({'mode': mode, 'rows': rows, 'bodies': [b] if mode == 'thread' else [b, []],
                         'sched': [0] * (len(b) + 3)})
         out.append({'mode': mode, 'rows': rows, 'bodies': [plain] if mode == 'thread' else [plain, []],
                     'sched': [0] * (len(plain) + 3)})
+    for c in out:
+        if c['mode'] == 'both':
+            # the caller has its own connection, the second thread only the process connection
+            c['mode'], c['slots'], c['proc'] = 'mixed', [0, None], 1
     for k, c in enumerate(out):
         c['cache'] = k % 2 == 0
         c['poison'] = [None] * len(c['bodies'])
@@ -123,7 +148,7 @@ def gen_case(rng):
     if rng.random() < 0.12 and c['rows']:
         # the fault: a parent-side instance on which expire() raises (needs a weak-only cache to stay findable)
         c['cache'] = False
-        t = rng.randrange(len(c['bodies'])) if c['mode'] == 'thread' else 0
+        t = rng.randrange(len(c['bodies'])) if c['mode'] in ('thread', 'both') else 0
         pid = rng.randint(1, len(c['rows']))
         c['poison'][t] = pid
         if rng.random() < 0.7:
@@ -151,7 +176,25 @@ def gen_case0(rng):
         first = sched[0]
         sched = sorted(sched, key=lambda t: (t != first, rng.random()))
     sched += [rng.randrange(nthreads) for _ in range(rng.randint(0, 2))]
-    return {'mode': 'thread', 'rows': rows, 'bodies': bodies, 'sched': sched}
+    c = {'mode': 'thread', 'rows': rows, 'bodies': bodies, 'sched': sched}
+    r = rng.random()
+    if r < 0.3:
+        c['mode'] = 'both'                       # thread connections AND a (different) process connection
+    elif r < 0.55:
+        # some threads have no connection of their own and fall back to the process one; at most one of those calls
+        # doInTransaction (a second one would find the first one's transaction in the process slot), the others only watch
+        c['mode'] = 'mixed'
+        k = rng.randint(1, 2)
+        caller = rng.random() < 0.6
+        c['bodies'] = bodies + [gen_body(rng, len(rows)) if (caller and j == 0) else [] for j in range(k)]
+        c['slots'] = list(range(nthreads)) + [None] * k
+        c['proc'] = nthreads if rng.random() < 0.8 else rng.randrange(nthreads)    # usually its own, sometimes a thread's connection
+        if caller:
+            t = nthreads
+            extra = [t] * (len(c['bodies'][t]) + 2)
+            for x in extra:
+                sched.insert(rng.randint(0, len(sched)), x)
+    return c
 
 
 def corpus():
@@ -170,6 +213,16 @@ def corpus():
         {'mode': 'process', 'rows': rows, 'bodies': [[['create', 5, 5], ['update', 7, 1, 4]], []], 'sched': [0, 0, 0, 0]},
         {'mode': 'thread', 'rows': [], 'bodies': [[]], 'sched': [0, 0, 0]},
     ]
+    # thread connection WHILE the hub has a process connection (seeded defect c08_thread_binding_derived_from_process_binding):
+    # the body must run inside the transaction (a raise undoes it), the process slot must be left alone
+    out.append({'mode': 'mixed', 'slots': [0, None], 'proc': 1, 'rows': rows,
+                'bodies': [[['update', 1, 0, 5], ['create', 3, 3], ['fail', 1]], []], 'sched': [0, 0, 0, 0]})
+    out.append({'mode': 'mixed', 'slots': [0, None], 'proc': 1, 'rows': rows,
+                'bodies': [[['update', 1, 0, 5], ['create', 3, 3]], []], 'sched': [0, 0, 0, 0]})
+    out.append({'mode': 'both', 'rows': rows, 'bodies': [[['delete', 1], ['fail', 0]], [['create', 4, 4]]], 'sched': [0, 1, 0, 1, 0, 1]})
+    # a thread without a connection of its own calls, two others have theirs; the process slot holds thread 0's connection
+    out.append({'mode': 'mixed', 'slots': [0, 1, None], 'proc': 0, 'rows': rows,
+                'bodies': [[['update', 1, 0, 5]], [], [['update', 2, 0, 6], ['fail', 3]]], 'sched': [2, 0, 2, 0, 2, 0]})
     for c in out:
         c['cache'] = True
         c['poison'] = [None] * len(c['bodies'])
@@ -217,7 +270,8 @@ class Worker(threading.Thread):
         import sqlite3
         from sqlobject import SQLObjectNotFound
         cls = self.sh['cls']
-        parent = self.sh['conns'][self.idx if self.sh['mode'] == 'thread' else 0]
+        own = self.sh['slots'][self.idx]
+        parent = self.sh['conns'][own if own is not None else self.sh['proc']]
         raw = sqlite3.connect(self.sh['fn'], timeout=0, isolation_level=None)
         row = raw.execute('SELECT id, a, b FROM %s WHERE id = ?' % TABLE, (pid,)).fetchone()
         p = cls.get(pid, connection=parent)
@@ -243,27 +297,39 @@ class Worker(threading.Thread):
         self.same = None
         self.keep = []
 
+    def token(self, c):
+        """which object is it: one of the DBConnections, or the Transaction captured by a worker"""
+        if c is None:
+            return None
+        for i, d in enumerate(self.sh['conns']):
+            if c is d:
+                return ['db', i]
+        for w in self.sh['workers']:
+            if w.tx is not None and c is w.tx:
+                return ['tx', w.idx]
+        if type(c).__name__ == 'Transaction':
+            # a transaction nobody captured yet (the caller is still entering): whose is it?
+            return ['tx?']
+        return ['other']
+
     def probe(self):
         cls, hub = self.sh['cls'], self.sh['hub']
         try:
-            c = hub.getConnection()
+            tok = self.token(hub.getConnection())
         except AttributeError:
             tok = None
-        else:
-            tok = ['other']
-            for i, d in enumerate(self.sh['conns']):
-                if c is d:
-                    tok = ['db', i]
-            for w in self.sh['workers']:
-                if w.tx is not None and c is w.tx:
-                    tok = ['tx', w.idx]
+        raw_slot = self.token(getattr(hub.threadingLocal, 'connection', None))
         info = None
         if self.phase == 'done' and self.tx is not None:
-            parent = self.tx._dbConnection
-            released = self.tx._connection is None and self.low is not None and (
-                closed(self.low) or self.low in list(parent._threadPool.values()) or self.low in list(parent._pool or []))
-            info = [bool(self.tx._obsolete), bool(released)]
-        return {'resolve': tok, 'phase': self.phase, 'result': self.result, 'tx': info, 'same': self.same}
+            try:
+                parent = self.tx._dbConnection
+                released = self.tx._connection is None and self.low is not None and (
+                    closed(self.low) or self.low in list(parent._threadPool.values()) or self.low in list(parent._pool or []))
+                info = [bool(self.tx._obsolete), bool(released)]
+            except AttributeError:
+                info = [False, False]          # what the body saw as "the hub's connection" was no Transaction at all
+        return {'resolve': tok, 'slot': raw_slot, 'proc': self.token(getattr(hub, 'processConnection', None)),
+                'phase': self.phase, 'result': self.result, 'tx': info, 'same': self.same}
 
     def wait(self):
         """inside the body: serve probes until the controller releases the next step"""
@@ -314,8 +380,8 @@ class Worker(threading.Thread):
 
     def run(self):
         cls, hub = self.sh['cls'], self.sh['hub']
-        if self.sh['mode'] == 'thread':
-            hub.threadConnection = self.sh['conns'][self.idx]
+        if self.sh['slots'][self.idx] is not None:
+            hub.threadConnection = self.sh['conns'][self.sh['slots'][self.idx]]
         self.poison()
         self.rep.put('ready')
         while True:
@@ -344,9 +410,9 @@ class Worker(threading.Thread):
                 self.phase = 'done'
                 self.rep.put('tick')
         # hand the DB-API connections of this thread back
-        if self.sh['mode'] == 'thread':
+        if self.sh['slots'][self.idx] is not None:
             try:
-                self.sh['conns'][self.idx].close()
+                self.sh['conns'][self.sh['slots'][self.idx]].close()
             except Exception:  # noqa
                 pass
         self.rep.put('bye')
@@ -374,12 +440,12 @@ def run_case(case, workdir):
         raw.execute('INSERT INTO %s (a, b) VALUES (?, ?)' % TABLE, (a, b))
     setupc.close()
     cache = bool(case.get('cache', True))
-    if case['mode'] == 'thread':
-        conns = [SQLiteConnection(fn, timeout=0, cache=cache) for _ in range(n)]
-    else:
-        conns = [SQLiteConnection(fn, timeout=0, cache=cache)]
-        hub.processConnection = conns[0]
+    slots, proc, nconn = hubcfg(case)
+    conns = [SQLiteConnection(fn, timeout=0, cache=cache) for _ in range(nconn)]
+    if proc is not None:
+        hub.processConnection = conns[proc]
     shared = {'cls': cls, 'hub': hub, 'conns': conns, 'bodies': case['bodies'], 'mode': case['mode'], 'fn': fn,
+              'slots': slots, 'proc': proc,
               'poison': case.get('poison') or [None] * n,
               'errors': [UserErr('e%d' % i) for i in range(4)], 'workers': []}
     workers = [Worker(i, shared) for i in range(n)]
@@ -414,13 +480,13 @@ def run_case(case, workdir):
         for w in workers:
             w.join(timeout=60)
         raw.close()
-        if case['mode'] == 'process':
+        try:
+            del hub.processConnection
+        except AttributeError:
+            pass
+        for c in conns:
             try:
-                del hub.processConnection
-            except AttributeError:
-                pass
-            try:
-                conns[0].close()
+                c.close()
             except Exception:  # noqa
                 pass
     return {'initial': initial, 'steps': steps}
@@ -495,19 +561,22 @@ def cthread(t):
     if ph is None:
         x = 'None' if t['tx'] is None else '(Some (%s, %s))' % (cb(t['tx'][0]), cb(t['tx'][1]))
         ph = '(VDone %s %s)' % (cresult(t['result']), x)
-    return '{| b_resolve := %s; b_phase := %s |}' % (cref(t['resolve']), ph)
+    return '{| b_slot := %s; b_resolve := %s; b_phase := %s |}' % (cref(t.get('slot')), cref(t['resolve']), ph)
 
 
 def cobs(o):
-    return '{| o_table := %s; o_threads := [%s] |}' % (ctab(o['table']), '; '.join(cthread(t) for t in o['threads']))
+    proc = o['threads'][0].get('proc') if o['threads'] else None
+    return '{| o_table := %s; o_proc := %s; o_threads := [%s] |}' % (ctab(o['table']), cref(proc), '; '.join(cthread(t) for t in o['threads']))
 
 
 def coq_case(case, obs):
     sched = '; '.join('(%d%%nat, %s)' % (t, cobs(o)) for t, o in zip(case['sched'], obs['steps']))
     bodies = '; '.join('[%s]' % '; '.join(cstep(s) for s in b) for b in case['bodies'])
     poison = '; '.join('None' if x is None else '(Some %s)' % z(x) for x in (case.get('poison') or [None] * len(case['bodies'])))
-    return '{| c_thread_level := %s; c_table := %s; c_bodies := [%s]; c_broken := [%s]; c_sched := [%s] |}' % (
-        cb(case['mode'] == 'thread'), ctab(obs['initial']['table']), bodies, poison, sched)
+    slots, proc, _ = hubcfg(case)
+    optn = lambda x: 'None' if x is None else '(Some %d%%nat)' % x  # noqa
+    return '{| c_slots := [%s]; c_proc := %s; c_table := %s; c_bodies := [%s]; c_broken := [%s]; c_sched := [%s] |}' % (
+        '; '.join(optn(x) for x in slots), optn(proc), ctab(obs['initial']['table']), bodies, poison, sched)
 
 
 # ------------------------------------------------------------------ oracle: the property on the observations alone
@@ -547,13 +616,13 @@ def oracle(case, obs):
 
 def failures(case, obs):
     prev = obs['initial']
-    mode = case['mode']
+    slots, proc, _ = hubcfg(case)
     n = len(case['bodies'])
-    original = [t['resolve'] for t in prev['threads']]
+    db = lambda x: None if x is None else ['db', x]  # noqa
+    original = [db(slots[i] if slots[i] is not None else proc) for i in range(n)]
     for i, t in enumerate(prev['threads']):
-        want = ['db', i] if mode == 'thread' else ['db', 0]
-        if t['resolve'] != want:
-            yield fail(-1, 'the hub does not resolve to the connection that was bound', thread=i, actual=t['resolve'])
+        if t['resolve'] != original[i] or t.get('slot') != db(slots[i]) or t.get('proc') != db(proc):
+            yield fail(-1, 'the hub does not hold / resolve to the connections that were bound', thread=i, actual=[t.get('slot'), t.get('proc'), t['resolve']])
     for k, (t, cur) in enumerate(zip(case['sched'], obs['steps'])):
         before, after = prev['threads'][t], cur['threads'][t]
         finished = before['phase'] != 'done' and after['phase'] == 'done'
@@ -588,20 +657,25 @@ def failures(case, obs):
             if after['tx'] is not None and after['tx'] != [True, True]:
                 yield fail(k, 'the transaction is not obsolete / its low-level connection not released after doInTransaction',
                             thread=t, kind='not_released', tx=after['tx'], result=after['result'])
-        # the hub: a thread that is not inside its own doInTransaction resolves to what it resolved to at the start
+        # the hub, slot by slot and thread by thread.  A thread inside its doInTransaction has the transaction in the slot it
+        # took the connection from (its own if it has one, else the process slot); every other slot holds what it held at the start
+        running = [j for j, x in enumerate(cur['threads']) if x['phase'] == 'run']
+        proc_tx = [j for j in running if slots[j] is None]
+        want_proc = ['tx', proc_tx[0]] if proc_tx else db(proc)
         for i, th in enumerate(cur['threads']):
             inside = th['phase'] == 'run'
-            if mode == 'thread':
-                want = ['tx', i] if inside else original[i]
-                if th['resolve'] != want:
-                    yield fail(k, 'hub.getConnection() in thread %d is not %s' % (i, 'its transaction' if inside else 'the connection it had before'),
-                                thread=i, kind='hub', expected=want, actual=th['resolve'])
-            else:
-                running = [j for j, x in enumerate(cur['threads']) if x['phase'] == 'run']
-                if not running and th['resolve'] != original[i]:
-                    yield fail(k, 'the process connection was not restored', thread=i, kind='hub', expected=original[i], actual=th['resolve'])
-                if running and th['resolve'] != ['tx', running[0]]:
-                    yield fail(k, 'the process-level slot does not hold the transaction while the body runs', thread=i, kind='hub')
+            want_slot = (['tx', i] if inside else db(slots[i])) if slots[i] is not None else None
+            want_res = want_slot if want_slot is not None else want_proc
+            if th.get('slot') != want_slot:
+                yield fail(k, "thread %d's own slot does not hold %s" % (i, 'its transaction' if inside else 'what it held before'),
+                           thread=i, kind='hub', expected=want_slot, actual=th.get('slot'))
+            if th.get('proc') != want_proc:
+                yield fail(k, 'the process-level slot does not hold %s' % ('the transaction of the caller that took its connection from it'
+                                                                          if proc_tx else 'what it held before'),
+                           thread=i, kind='hub', expected=want_proc, actual=th.get('proc'))
+            if th['resolve'] != want_res:
+                yield fail(k, 'hub.getConnection() in thread %d is not %s' % (i, 'its transaction' if inside else 'the connection it resolved to before'),
+                           thread=i, kind='hub', expected=want_res, actual=th['resolve'])
         prev = cur
 
 
@@ -619,7 +693,7 @@ def nontrivial(case, obs):
 
 
 def key(case):
-    return [case['mode'], case['rows'], case['bodies'], case['sched'], case.get('cache'), case.get('poison')]
+    return [case['mode'], case.get('slots'), case.get('proc'), case['rows'], case['bodies'], case['sched'], case.get('cache'), case.get('poison')]
 
 
 def distribution(cases, obs):
@@ -633,7 +707,7 @@ def distribution(cases, obs):
             L = str(len(body))
             d['bodies_by_len'][L] = d['bodies_by_len'].get(L, 0) + 1
             if th['phase'] != 'done':
-                if body or c['mode'] == 'thread':
+                if body or c['mode'] in ('thread', 'both'):
                     d['unfinished_threads'] += 1
                 continue
             r = th['result']
